@@ -82,7 +82,7 @@ fn random(a: &Args) {
             cfg.p_write = 0.5;
             cfg.n_res = 2;
         }
-        let prog = gen_prog(&mut rng, &cfg, 0, "");
+        let prog = if rng.gen_bool(a.num("pfunnel", 0.12)) { shredh::prog::gen_funnel(&mut rng) } else { gen_prog(&mut rng, &cfg, 0, "") };
         let mut res = Vec::new();
         prog.resources(&mut res);
         for v in 0..variants {
